@@ -202,7 +202,7 @@ def run_convert(case):
 def subs(tier):
     q = tier == "quick"
     return [
-        Sub("convert", run_convert, strategy=qc_case(), examples=35 if q else 500),
+        Sub("convert", run_convert, strategy=qc_case(), examples=35 if q else 1500),
         Sub("far-apart-qubits", run_convert, strategy=far_case(), examples=2 if q else 40),
-        Sub("convert-forced-patterns", run_convert, strategy=qc_case(forced=True), examples=20 if q else 300),
+        Sub("convert-forced-patterns", run_convert, strategy=qc_case(forced=True), examples=20 if q else 900),
     ]
